@@ -140,4 +140,5 @@ class JWTClaimsRegistry(ClaimsRegistry):
 
 
 def _validate_numeric_time(s: int) -> bool:
-    return isinstance(s, (int, float))
+    # NumericDate is a JSON number; JSON true/false are not (bool is a subclass of int)
+    return isinstance(s, (int, float)) and not isinstance(s, bool)
